@@ -5,6 +5,8 @@ import (
 	"encoding/gob"
 	"encoding/json"
 	"fmt"
+	"github.com/go-openapi/spec"
+	"sort"
 )
 
 // C14: gob transport preserves the document.
@@ -70,10 +72,91 @@ func c14Exec(c *Ctx, cs docCase) (outcome string) {
 		c.Violate(Violation{Oracle: "gob-roundtrip", Class: diffClass(d), Pointer: d.Pointer, Expected: d.Expected, Observed: d.Observed,
 			Features: f, Case: cs, Detail: "json before gob: " + tail(string(j1), 300) + " after: " + tail(string(j2), 300)})
 	}
+	// the byte slices handed out by the exported GobEncode methods stay what they are when other values
+	// are encoded afterwards (a caller may keep them: a cache, a batch writer, another goroutine)
+	for _, e := range c14Encoders(v1) {
+		kept, err := e.f()
+		if err != nil {
+			continue
+		}
+		snapshot := append([]byte{}, kept...)
+		for _, o := range c14Encoders(c14Other(cs.Target)) {
+			if o.name == e.name {
+				_, _ = o.f()
+				_, _ = o.f()
+			}
+		}
+		if !bytes.Equal(kept, snapshot) {
+			f := feat()
+			f["symptom"] = "retained-encoding-overwritten:" + e.name
+			c.Violate(Violation{Oracle: "gob-roundtrip", Class: "retained-encoding-overwritten", Pointer: e.name, Features: f, Case: cs,
+				Detail: "the bytes returned by " + e.name + " changed when another value was encoded"})
+			return "diff"
+		}
+	}
 	if len(ds) > 0 {
 		return "diff"
 	}
 	return "ok"
+}
+
+type c14Enc struct {
+	name string
+	f    func() ([]byte, error)
+}
+
+// c14Encoders lists the exported GobEncode methods reachable from a value.
+func c14Encoders(v interface{}) []c14Enc {
+	switch t := v.(type) {
+	case *spec.Swagger:
+		out := []c14Enc{{"Swagger.GobEncode", t.GobEncode}, {"SwaggerProps.GobEncode", t.SwaggerProps.GobEncode}}
+		if t.Paths != nil {
+			for _, k := range sortedPathKeys(t.Paths.Paths) {
+				if op := t.Paths.Paths[k].Get; op != nil {
+					out = append(out, c14Enc{"OperationProps.GobEncode", op.OperationProps.GobEncode})
+					break
+				}
+			}
+		}
+		return out
+	case *spec.Operation:
+		return []c14Enc{{"Operation.GobEncode", t.GobEncode}, {"OperationProps.GobEncode", t.OperationProps.GobEncode}}
+	case *spec.Ref:
+		return []c14Enc{{"Ref.GobEncode", t.GobEncode}}
+	}
+	return nil
+}
+
+func sortedPathKeys(m map[string]spec.PathItem) []string {
+	var ks []string
+	for k := range m {
+		ks = append(ks, k)
+	}
+	sort.Strings(ks)
+	return ks
+}
+
+var c14Others = map[string]interface{}{}
+
+// c14Other: another value of the same type (decoded once per process).
+func c14Other(target string) interface{} {
+	if v, ok := c14Others[target]; ok {
+		return v
+	}
+	var v interface{}
+	switch target {
+	case "swagger":
+		v = new(spec.Swagger)
+		json.Unmarshal([]byte(`{"swagger":"2.0","info":{"title":"other","version":"9"},"host":"other.example","paths":{"/other":{"get":{"operationId":"otherOp","tags":["o1","o2"],"security":[{"k":["s"]}],"responses":{"418":{"description":"other"}}}}},"security":[{"k":[]}],"x-other":{"a":[1,2,3]}}`), v)
+	case "operation":
+		v = new(spec.Operation)
+		json.Unmarshal([]byte(`{"operationId":"otherOp","summary":"another operation","tags":["o1","o2"],"security":[{"k":["s"]}],"responses":{"418":{"description":"other"}},"x-other":{"a":[1,2,3]}}`), v)
+	case "ref":
+		r := spec.MustCreateRef("http://other.example/d/e.json#/definitions/Other")
+		v = &r
+	}
+	c14Others[target] = v
+	return v
 }
 
 func c14Run(c *Ctx) {
